@@ -104,7 +104,7 @@ Definition places_defaults_ok (v : tv) : bool :=
   | TL l =>
       let places := map (fun p => match p with TP (TZ o) _ => o | _ => 0 end) l in
       let defaults := map (fun p => match p with TP _ (TS d) => bs d | _ => [] end) l in
-      Nat.eqb (length l) 6
+      Nat.eqb (List.length l) 6
       && forallb (fun i => res_fields_eqb (normalize_fields [bs "x"] (nth i places 0))
                                           (replace_nth i (bs "x") defaults))
                  (seq 0 6)
@@ -125,13 +125,13 @@ Definition optional_defaults_ok (v : tv) : bool :=
 (* "@every " ++ duration: the prefix test and the length of what is cut off *)
 Definition every_prefix_ok (p : string) : bool :=
   match parse_descriptor (fun r => if eqb_listN r (bs "Q") then Some 2000000000 else None)
-                         (bs p ++ bs "Q") LocLocal with
-  | Ok (EverySched d) => d =? 2000000000
+                         (bs p ++ bs "Q")%list LocLocal with
+  | Ok (EverySched d) => (d =? 2000000000)%Z
   | _ => false
   end.
 
 Definition table : list entry :=
-  bounds_entries "seconds" seconds ++ bounds_entries "minutes" minutes
+  (bounds_entries "seconds" seconds ++ bounds_entries "minutes" minutes
   ++ bounds_entries "hours" hours ++ bounds_entries "dom" dom
   ++ bounds_entries "months" months ++ bounds_entries "dow" dow
   ++ [ ("cron.starBit", eqv (tN star_bit));
@@ -148,7 +148,7 @@ Definition table : list entry :=
        ("cron.parseDescriptor.every", on_S every_prefix_ok);
        ("cron.Every.minimum", eqv (TZ ns_per_s));
        ("cron.Every.minimum-assigned", eqv (TZ ns_per_s));
-       ("cron.Every.granularity", eqv (TZ ns_per_s)) ].
+       ("cron.Every.granularity", eqv (TZ ns_per_s)) ])%list.
 
 Definition run_cases := run_tab table.
 
